@@ -30,6 +30,11 @@ const StringAdditionalProperties = "additionalProperties"
 
 var BufferPool = sync.NewBufferPool(1024)
 
+// CopyBytes returns a copy of the bytes which doesn't depend on the pooled buffer.
+func CopyBytes(b []byte) []byte {
+	return append(make([]byte, 0, len(b)), b...)
+}
+
 // ToJSONString returns JSON quoted string data
 func ToJSONString(s string) []byte {
 	b, err := json.Marshal(s)
